@@ -34,8 +34,6 @@ def bufStream (stream : String) : Option (List UInt8 → String) :=
   match stream with
   | "dtlsrec" => some fun bs => showRes (runB Dtls.recordDecode bs) nats
   | "dtlshs" => some fun bs => showRes (runB Dtls.handshakeDecode bs) nats
-  | "dtlsrecwalk" => some fun bs => showRes (runB Dtls.recordWalk bs) natsList
-  | "dtlshswalk" => some fun bs => showRes (runB Dtls.handshakeWalk bs) natsList
   | "chello" => some fun bs => showRes (runB Dtls.clientHelloDecode bs) nats
   | "shello" => some fun bs => showRes (runB Dtls.serverHelloDecode bs) nats
   | "hvr" => some fun bs => showRes (runB Dtls.helloVerifyDecode bs) nats
@@ -138,6 +136,15 @@ def handleSpecial (stream : String) (args : List String) : String :=
       | .err e _ => "err " ++ e
       | .panic s => if s = "hang" then "hang" else "panic"
     | none => "bad-args"
+  | "dtlsctx", role :: msgSeq :: pls =>
+    match msgSeq.toNat?, pls.mapM unhex with
+    | some ms, some ps =>
+      match Dtls.datagramHistory (role = "1") { msgSeq := ms } ps (Buf.ofList []) 0 with
+      | .ok cs _ _ => "ok " ++ " ".intercalate (cs.map fun c =>
+          nats [c.recvSeq, c.msgSeq, c.incLen, c.incSeq, c.transcript, if c.postHvr then 1 else 0, if c.failed then 1 else 0])
+      | .err e _ => "err " ++ e
+      | .panic s => if s = "hang" then "hang" else "panic"
+    | _, _ => "bad-args"
   | "h264", pks =>
     match pks.mapM parsePk with
     | some ps => showRes (Media.h264Run {} ps (Buf.ofList []) 0) (fun r => " ".intercalate (r.map showSamples))
@@ -148,10 +155,15 @@ def handleSpecial (stream : String) (args : List String) : String :=
     | none => "bad-hex"
   | "sdpmid", [m] =>
     -- the live entry returns (`ret`) whatever the mid text is; a numeric 16-bit mid goes through `midUpdate`
-    match Sdp.parseDec 65535 m.toUTF8.toList with
-    | some v => match Sdp.midUpdate 0 v (Buf.ofList []) 0 with | .panic _ => "panic" | _ => "ret"
-    | none => "ret"
-  | "sdpmid", [] => "ret"
+    -- the template's sections carry mids 0, <m>, 2; `next_mid` afterwards is the fold of `midUpdate` over the numeric ones
+    let mids : List Nat := [0] ++ (match Sdp.parseDec 65535 m.toUTF8.toList with | some v => [v] | none => []) ++ [2]
+    let step := fun (acc : Option Nat) (v : Nat) => match acc with
+      | none => none
+      | some a => match Sdp.midUpdate a v (Buf.ofList []) 0 with | .ok r _ _ => some r | _ => none
+    match mids.foldl step (some 0) with
+    | some nm => s!"ret {nm}"
+    | none => "panic"
+  | "sdpmid", [] => "ret 3"
   | "sdpparse", _ => "noncompared"
   | "sdpset", _ => "noncompared"
   | "dtlslive", _ => "noncompared"
